@@ -621,9 +621,42 @@ fn static_hr(r: &mut Report) {
     }
 }
 
+/// maps whose keys are not scalars (tuples, sequences, options, structs, unit structs, enums):
+/// `any` keys its maps by `any`, so they survive the carrier although JSON could not write them
+fn static_compound_keys(r: &mut Report) {
+    use std::collections::BTreeMap;
+    #[derive(serde::Serialize, serde::Deserialize, PartialEq, Eq, PartialOrd, Ord, Debug, Clone)]
+    struct KS {
+        a: i32,
+        b: String,
+    }
+    #[derive(serde::Serialize, serde::Deserialize, PartialEq, Eq, PartialOrd, Ord, Debug, Clone)]
+    struct KU;
+    #[derive(serde::Serialize, serde::Deserialize, PartialEq, Eq, PartialOrd, Ord, Debug, Clone)]
+    struct KT(i32, bool);
+    #[derive(serde::Serialize, serde::Deserialize, PartialEq, Eq, PartialOrd, Ord, Debug, Clone)]
+    enum KE {
+        Unit,
+        Other,
+    }
+    buffered_case("key:tuple", &[((1i32, true), "a".to_string()), ((-1, false), "b".to_string())].into_iter().collect::<BTreeMap<_, _>>(), r);
+    buffered_case("key:seq", &[(vec![1u8, 2], 1i32), (vec![], 2)].into_iter().collect::<BTreeMap<_, _>>(), r);
+    buffered_case("key:option", &[(Some(5i64), 1i32), (None, 2)].into_iter().collect::<BTreeMap<_, _>>(), r);
+    buffered_case("key:option<string>", &[(Some("k".to_string()), 1i32), (None, 2)].into_iter().collect::<BTreeMap<_, _>>(), r);
+    buffered_case("key:struct", &[(KS { a: 1, b: "x".into() }, vec![1i32]), (KS { a: 1, b: "y".into() }, vec![])].into_iter().collect::<BTreeMap<_, _>>(), r);
+    buffered_case("key:unit-struct", &[(KU, 1i32)].into_iter().collect::<BTreeMap<_, _>>(), r);
+    buffered_case("key:tuple-struct", &[(KT(1, true), 1i32), (KT(1, false), 2)].into_iter().collect::<BTreeMap<_, _>>(), r);
+    // (enum keys with payload variants are refused on the way back, as by serde_json: excluded)
+    buffered_case("key:enum", &[(KE::Unit, 1i32), (KE::Other, 2)].into_iter().collect::<BTreeMap<_, _>>(), r);
+    buffered_case("key:map", &[([(1i32, 2i32)].into_iter().collect::<BTreeMap<_, _>>(), 1i32)].into_iter().collect::<BTreeMap<_, _>>(), r);
+    buffered_case("key:char", &[('a', 1i32), ('\u{e9}', 2)].into_iter().collect::<BTreeMap<_, _>>(), r);
+    buffered_case("key:unit", &[((), 1i32)].into_iter().collect::<BTreeMap<_, _>>(), r);
+}
+
 fn static_keys(r: &mut Report) {
     static_buffered(r);
     static_hr(r);
+    static_compound_keys(r);
     static_smile(r);
     static_nested_any(r);
     use conjure_object::DoubleKey;
